@@ -6,6 +6,7 @@ import (
 	"fmt"
 	"os"
 	"regexp"
+	"runtime/debug"
 	"sort"
 	"time"
 
@@ -124,6 +125,11 @@ func RunOnce(eng core.Engine, seed uint64, trace bool) (core.Result, *tape.Tape)
 
 // ReplayVals executes one run from recorded values.
 func ReplayVals(eng core.Engine, vals []uint64, trace bool) (core.Result, *tape.Tape) {
+	if f := os.Getenv("VERIF_DUMP_TAPE"); f != "" {
+		// debugging aid: the tape about to be executed (survives a process death)
+		b, _ := json.Marshal(vals)
+		os.WriteFile(f, b, 0o644)
+	}
 	t := tape.Replay(vals)
 	t.KeepRec = trace
 	res := eng.Run(t, trace)
@@ -131,7 +137,18 @@ func ReplayVals(eng core.Engine, vals []uint64, trace bool) (core.Result, *tape.
 }
 
 // Worker runs its share of the runs and writes a summary.
-func Worker(o WorkerOpts) int {
+func Worker(o WorkerOpts) (code int) {
+	// A Go panic that reaches this frame comes from the harness itself (calls
+	// into the code under test are wrapped by core.Protect): exit 3 = simulator
+	// trouble, never a violation. Fatal runtime errors and panics in goroutines
+	// of the code under test kill the process with exit 2 and are attributed
+	// by the supervisor.
+	defer func() {
+		if e := recover(); e != nil {
+			fmt.Fprintf(os.Stderr, "HARNESS-PANIC: %v\n%s\n", e, debug.Stack())
+			os.Exit(3)
+		}
+	}()
 	eng, ok := core.Get(o.Prop)
 	if !ok {
 		fmt.Fprintf(os.Stderr, "unknown property %s\n", o.Prop)
